@@ -66,6 +66,7 @@ def step (s : DSt) (line : String) : DSt × Option String :=
       else if kv.startsWith "chunk=" then { s with chunk := nat! (kv.drop 6).toString }
       else s) s
     (s, none)
+  | ["raceappend", _, _] => (s, some "raceappend ok")
   | ["use", n] => ({ s with cur := nat! n, lastEvs := [], lastNext := [] }, some "use")
   | ["append", r] =>
     let (i, offs) := getInst s
